@@ -1,8 +1,11 @@
 package main
 
 import (
+	"bytes"
 	"encoding/json"
+	"errors"
 	"fmt"
+	"io"
 	"strings"
 
 	"go.pennock.tech/tabular"
@@ -124,6 +127,145 @@ type TableSpec struct {
 	// the columns that exist by then; Align / Skip (set last) override them.
 	AlignEarly map[int]int `json:"align_early,omitempty"`
 	SkipEarly  map[int]int `json:"skip_early,omitempty"`
+	// Mutations: after the last staged render the (mutable "obj") items of
+	// these cells get a new text and the cell is updated through CellAt (or
+	// Headers for Row -1) - the documented way to change a cell's content.
+	Mutations []Mutation `json:"mutations,omitempty"`
+	// Scribble: before the final render the slice handed out by AllRows() is
+	// reversed and partly nil-ed by the caller (it is documented as a copy).
+	Scribble bool `json:"scribble,omitempty"`
+	// StageFaults: staged renders go through RenderTo into a writer that
+	// fails part-way (a transient failure of an earlier render).
+	StageFaults bool `json:"stage_faults,omitempty"`
+	// FinalVia: 0 = Render(); 1 = RenderTo into a plain collecting io.Writer
+	// that is not a *bytes.Buffer.  FaultAt k > 0: additionally RenderTo runs
+	// against a writer failing only on call k-1; should it return nil although
+	// a write failed, what that writer accepted is reported as the output.
+	FinalVia int `json:"final_via,omitempty"`
+	FaultAt  int `json:"fault_at,omitempty"`
+	// PropOps: a history of SetProperty calls on columns, applied in order after Align/Skip
+	PropOps []PropOp `json:"prop_ops,omitempty"`
+}
+
+// PropOp: one SetProperty on a column after everything else: Key 0 = alignment
+// (Val 0 nil, 1 left, 2 right, 3 centre), 1 = skipable (0 nil, 1 true, 2
+// false, 3 non-bool), 2.. = some other key of the application (Val 0 = nil).
+type PropOp struct {
+	Col int `json:"col"`
+	Key int `json:"key"`
+	Val int `json:"val"`
+}
+
+type Mutation struct {
+	Row int    `json:"row"` // index into Rows; -1 = header
+	Col int    `json:"col"`
+	S   []byte `json:"s"`
+}
+
+// RenderW is what every rendering wrapper offers.
+type RenderW interface {
+	Render() (string, error)
+	RenderTo(io.Writer) error
+}
+
+type collectWriter struct {
+	acc    []byte
+	calls  int
+	failAt int // -1 never; k = fail only on call k; -2 = fail on every call from the second on
+	failed bool
+}
+
+func (w *collectWriter) Write(p []byte) (int, error) {
+	i := w.calls
+	w.calls++
+	if i == w.failAt || (w.failAt == -2 && i >= 1) {
+		w.failed = true
+		return 0, errors.New("collectWriter: scripted failure")
+	}
+	w.acc = append(w.acc, p...)
+	return len(p), nil
+}
+
+// BuildRenderW builds the table and renders it through ONE wrapper made by mk
+// (before the first building call when the spec has stages, mutations or
+// faults, i.e. whenever earlier renders are part of the history).
+func (ts TableSpec) BuildRenderW(t tabular.Table, mk func(tabular.Table) RenderW) Outcome {
+	var w RenderW
+	history := len(ts.Stages) > 0 || len(ts.Mutations) > 0 || ts.StageFaults
+	if history {
+		w = mk(t)
+	}
+	nStage := 0
+	objs := ts.buildStaged(t, func() {
+		nStage++
+		if ts.StageFaults && nStage%2 == 1 {
+			capture(func() (string, error) { return "", w.RenderTo(&collectWriter{failAt: -2}) })
+			return
+		}
+		capture(w.Render)
+	})
+	if len(ts.Mutations) > 0 {
+		capture(w.Render) // a render that sees the old texts
+		for _, m := range ts.Mutations {
+			od := objs[[2]int{m.Row, m.Col}]
+			if od == nil {
+				continue
+			}
+			od.s = string(m.S)
+			if m.Row < 0 {
+				if h := t.Headers(); m.Col < len(h) {
+					h[m.Col].Update()
+				}
+			} else if c, err := t.CellAt(tabular.CellLocation{Row: ts.tableRow(m.Row) + 1, Column: m.Col + 1}); err == nil {
+				c.Update()
+			}
+		}
+	}
+	if ts.Scribble {
+		rows := t.AllRows()
+		for i, j := 0, len(rows)-1; i < j; i, j = i+1, j-1 {
+			rows[i], rows[j] = rows[j], rows[i]
+		}
+		if len(rows) > 0 {
+			rows[0] = nil
+		}
+	}
+	if w == nil {
+		w = mk(t)
+	}
+	var o Outcome
+	if ts.FinalVia == 1 {
+		cw := &collectWriter{failAt: -1}
+		o = capture(func() (string, error) { err := w.RenderTo(cw); return string(cw.acc), err })
+	} else {
+		o = capture(w.Render)
+	}
+	if ts.FaultAt > 0 && o.Kind == "ok" {
+		fw := &collectWriter{failAt: ts.FaultAt - 1}
+		f := capture(func() (string, error) { err := w.RenderTo(fw); return string(fw.acc), err })
+		if fw.failed && f.Kind == "ok" && !bytes.Equal(fw.acc, o.Out) {
+			// RenderTo reported success although a write failed and the output is incomplete
+			f.ErrS = "RenderTo returned nil after a failed write; this is what the writer accepted"
+			return f
+		}
+		if fw.failed && f.Kind == "panic" {
+			return f
+		}
+	}
+	return o
+}
+
+// tableRow maps an index into Rows to the row's index in the table (rows
+// attached twice occupy two positions).
+func (ts TableSpec) tableRow(i int) int {
+	n := 0
+	for k := 0; k < i && k < len(ts.Rows); k++ {
+		n++
+		if ts.Rows[k].Twice && !ts.Rows[k].Sep && (ts.Rows[k].How == 1 || ts.Rows[k].How == 3) {
+			n++
+		}
+	}
+	return n
 }
 
 func makeItems(specs []ItemSpec) []interface{} {
@@ -156,10 +298,27 @@ func (ts TableSpec) BuildRender(t tabular.Table, mk func(tabular.Table) func() (
 }
 
 // BuildStaged is Build with a hook called after each body row listed in Stages.
-func (ts TableSpec) BuildStaged(t tabular.Table, hook func()) {
+func (ts TableSpec) BuildStaged(t tabular.Table, hook func()) { ts.buildStaged(t, hook) }
+
+// buildStaged also returns the mutable state of the "obj" items it stored,
+// keyed by (index into Rows or -1 for the header, cell index).
+func (ts TableSpec) buildStaged(t tabular.Table, hook func()) map[[2]int]*objData {
+	objs := map[[2]int]*objData{}
+	keepItems := func(row int, specs []ItemSpec, base int) []interface{} {
+		out := make([]interface{}, len(specs))
+		for i := range specs {
+			var od *objData
+			out[i], od = specs[i].Make()
+			if od != nil {
+				objs[[2]int{row, base + i}] = od
+			}
+		}
+		return out
+	}
 	type pending struct {
-		row, left int
-		cells     []ItemSpec
+		row, left  int
+		cells      []ItemSpec
+		spec, base int
 	}
 	var late []pending
 	flush := func(all bool) {
@@ -167,7 +326,7 @@ func (ts TableSpec) BuildStaged(t tabular.Table, hook func()) {
 		for _, p := range late {
 			if all || p.left <= 0 {
 				if rows := t.AllRows(); p.row < len(rows) {
-					for _, it := range makeItems(p.cells) {
+					for _, it := range keepItems(p.spec, p.cells, p.base) {
 						rows[p.row].Add(tabular.NewCell(it))
 					}
 				}
@@ -184,7 +343,7 @@ func (ts TableSpec) BuildStaged(t tabular.Table, hook func()) {
 	}
 	addHeader := func() {
 		if ts.Header != nil {
-			t.AddHeaders(makeItems(*ts.Header)...)
+			t.AddHeaders(keepItems(-1, *ts.Header, 0)...)
 		}
 	}
 	setProps := func(al, sk map[int]int) {
@@ -208,7 +367,7 @@ func (ts TableSpec) BuildStaged(t tabular.Table, hook func()) {
 	}
 	if ts.HeaderAt <= 0 && len(ts.AlignEarly)+len(ts.SkipEarly) > 0 && ts.Header != nil {
 		// the header first, so that its columns exist when the early properties are set
-		t.AddHeaders(makeItems(*ts.Header)...)
+		t.AddHeaders(keepItems(-1, *ts.Header, 0)...)
 		setProps(ts.AlignEarly, ts.SkipEarly)
 	} else {
 		setProps(ts.AlignEarly, ts.SkipEarly)
@@ -229,7 +388,7 @@ func (ts TableSpec) BuildStaged(t tabular.Table, hook func()) {
 			} else {
 				row = t.NewRowSizedFor()
 			}
-			for _, it := range makeItems(r.Cells) {
+			for _, it := range keepItems(i, r.Cells, 0) {
 				row.Add(tabular.NewCell(it))
 			}
 			t.AddRow(row)
@@ -238,15 +397,15 @@ func (ts TableSpec) BuildStaged(t tabular.Table, hook func()) {
 			}
 		case r.How == 2:
 			row := t.AppendNewRow()
-			for _, it := range makeItems(r.Cells) {
+			for _, it := range keepItems(i, r.Cells, 0) {
 				row.Add(tabular.NewCell(it))
 			}
 		default:
-			t.AddRowItems(makeItems(r.Cells)...)
+			t.AddRowItems(keepItems(i, r.Cells, 0)...)
 		}
 		flush(false)
 		if len(r.Late) > 0 {
-			late = append(late, pending{t.NRows() - 1, r.LateAfter, r.Late})
+			late = append(late, pending{t.NRows() - 1, r.LateAfter, r.Late, i, len(r.Cells)})
 			flush(false)
 		}
 		if hook != nil && staged[i] {
@@ -261,10 +420,29 @@ func (ts TableSpec) BuildStaged(t tabular.Table, hook func()) {
 		if hook != nil && len(ts.Stages) > 0 {
 			hook()
 		}
-		t.AddHeaders(makeItems(*ts.Header2)...)
+		t.AddHeaders(keepItems(-1, *ts.Header2, 0)...)
 	}
 	// column properties are set last, when the columns exist
 	setProps(ts.Align, ts.Skip)
+	for _, op := range ts.PropOps {
+		col := t.Column(op.Col)
+		if col == nil {
+			continue
+		}
+		switch op.Key {
+		case 0:
+			col.SetProperty(align.PropertyType, alignVals[op.Val])
+		case 1:
+			col.SetProperty(properties.Skipable, map[int]interface{}{1: true, 2: false, 3: "yes"}[op.Val])
+		default:
+			var v interface{}
+			if op.Val != 0 {
+				v = op.Val
+			}
+			col.SetProperty(fmt.Sprintf("app-key-%d", op.Key), v)
+		}
+	}
+	return objs
 }
 
 // enrichSpec adds, with small probabilities, the multi-step features a plain
@@ -312,6 +490,86 @@ func enrichSpec(r *RNG, ts *TableSpec, text func(*RNG) ItemSpec) {
 			ts.Rows[i].Twice = true
 		}
 	}
+	// an own alignment set first, another property after it, then the alignment unset again
+	if r.Pct(6) {
+		c := r.Intn(3)
+		if ts.AlignEarly == nil {
+			ts.AlignEarly = map[int]int{}
+		}
+		if ts.SkipEarly == nil {
+			ts.SkipEarly = map[int]int{}
+		}
+		if ts.Align == nil {
+			ts.Align = map[int]int{}
+		}
+		ts.AlignEarly[c] = 1 + r.Intn(3)
+		ts.SkipEarly[c] = 1 + r.Intn(2)
+		ts.Align[c] = 0 // SetProperty(align.PropertyType, nil)
+	}
+	// a history of property settings on one or two columns: set, another key, set again, unset ...
+	if r.Pct(12) {
+		n := 3 + r.Intn(4)
+		c1, c2 := r.Intn(3), r.Intn(3)
+		for k := 0; k < n; k++ {
+			c := c1
+			if r.Pct(30) {
+				c = c2
+			}
+			op := PropOp{Col: c, Key: r.Intn(4), Val: r.Intn(4)}
+			if op.Key <= 1 && r.Pct(35) {
+				op.Val = 0
+			}
+			if op.Key == 1 && op.Val == 3 && r.Pct(80) {
+				op.Val = 1
+			}
+			ts.PropOps = append(ts.PropOps, op)
+		}
+	}
+	// the caller scribbles over its copy of the row list; the last render goes
+	// through RenderTo into a non-buffer writer; a write fails once
+	if r.Pct(10) {
+		ts.Scribble = true
+	}
+	if r.Pct(15) {
+		ts.FinalVia = 1
+	}
+	if r.Pct(15) {
+		ts.FaultAt = 1 + r.Intn(4)
+		if r.Pct(30) {
+			ts.FaultAt = 1 + r.Intn(40)
+		}
+	}
+	if len(ts.Stages) > 0 && r.Pct(40) {
+		ts.StageFaults = true
+	}
+	// a mutable item gets another text between two renders (same size, or not)
+	if r.Pct(12) {
+		var cand [][2]int
+		for i, rw := range ts.Rows {
+			for j := range rw.Cells {
+				cand = append(cand, [2]int{i, j})
+			}
+		}
+		if len(cand) > 0 {
+			c := cand[r.Intn(len(cand))]
+			old := ts.Rows[c[0]].Cells[c[1]]
+			txt := old.B
+			if old.K == "obj" {
+				txt = old.S
+			}
+			ts.Rows[c[0]].Cells[c[1]] = ItemSpec{K: "obj", Mask: 1, S: txt}
+			nw := []byte(strings.Map(func(x rune) rune {
+				if x >= 'a' && x < 'z' {
+					return x + 1
+				}
+				return x
+			}, string(txt)))
+			if string(nw) == string(txt) || r.Pct(30) {
+				nw = append([]byte("M"), txt...)
+			}
+			ts.Mutations = append(ts.Mutations, Mutation{Row: c[0], Col: c[1], S: nw})
+		}
+	}
 }
 
 func (ts TableSpec) Size() int {
@@ -328,7 +586,13 @@ func (ts TableSpec) Size() int {
 	if ts.Header2 != nil {
 		n += 2 + len(*ts.Header2)
 	}
-	return n + len(ts.Align) + len(ts.Skip) + 3*len(ts.Stages) + 2*len(ts.AlignEarly) + 2*len(ts.SkipEarly)
+	if ts.Scribble {
+		n++
+	}
+	if ts.StageFaults {
+		n++
+	}
+	return n + len(ts.Align) + len(ts.Skip) + 3*len(ts.Stages) + 2*len(ts.AlignEarly) + 2*len(ts.SkipEarly) + 3*len(ts.Mutations) + ts.FinalVia + ts.FaultAt + 2*len(ts.PropOps)
 }
 
 // ---------------------------------------------------------------- view
@@ -370,6 +634,30 @@ func viewCells(cs []tabular.Cell) []VCell {
 // back from the table under test, so that a renderer's output is judged
 // against what was put in, not against whatever the table now holds.
 func (ts TableSpec) SpecView() View {
+	if len(ts.Mutations) > 0 {
+		// the view of the final state: mutated items carry their new text
+		b, _ := json.Marshal(ts)
+		var c TableSpec
+		json.Unmarshal(b, &c)
+		for _, m := range c.Mutations {
+			var it *ItemSpec
+			switch {
+			case m.Row < 0 && c.Header2 != nil && m.Col < len(*c.Header2):
+				it = &(*c.Header2)[m.Col]
+			case m.Row < 0 && c.Header2 == nil && c.Header != nil && m.Col < len(*c.Header):
+				it = &(*c.Header)[m.Col]
+			case m.Row >= 0 && m.Row < len(c.Rows) && m.Col < len(c.Rows[m.Row].Cells):
+				it = &c.Rows[m.Row].Cells[m.Col]
+			case m.Row >= 0 && m.Row < len(c.Rows) && m.Col-len(c.Rows[m.Row].Cells) < len(c.Rows[m.Row].Late):
+				it = &c.Rows[m.Row].Late[m.Col-len(c.Rows[m.Row].Cells)]
+			}
+			if it != nil && it.K == "obj" {
+				it.S = m.S
+			}
+		}
+		c.Mutations = nil
+		return c.SpecView()
+	}
 	mk := func(items []ItemSpec) *[]VCell {
 		cs := make([]tabular.Cell, len(items))
 		for i := range items {
@@ -447,6 +735,14 @@ func (ts TableSpec) SpecView() View {
 		}
 		if x, ok := ts.Skip[i]; ok {
 			s = x
+		}
+		for _, op := range ts.PropOps { // last write wins, nil removes
+			if op.Col == i && op.Key == 0 {
+				a = op.Val
+			}
+			if op.Col == i && op.Key == 1 {
+				s = op.Val
+			}
 		}
 		v.Align = append(v.Align, a)
 		v.Skip = append(v.Skip, s)
